@@ -34,6 +34,7 @@ def y_grid(h: float, tier: str, seed: int) -> list[float]:
     half = h / 2.0
     lo = hi = half
     ys.add(half)
+    ys.update((half - h * 2.0**-12, half + h * 2.0**-12, h * 2.0**-12, h * (1 - 2.0**-12)))  # within 1e-3 of the branch points
     for _ in range(3):
         lo = math.nextafter(lo, 0.0)
         hi = math.nextafter(hi, h)
@@ -52,6 +53,10 @@ def check_term(acc: Acc, cls: str, p, h: float, ys: list[float]) -> None:
     arr = np.array(ys)
     z1 = term.tsukamoto(arr)
     z2 = term.tsukamoto(arr.reshape(1, -1))
+    if not np.array_equal(arr, np.array(ys)):
+        acc.violate("input-array-modified", {"term": cls}, {**case0, "y": ys[0]}, "y unchanged", "y overwritten",
+                    f"{cls}.tsukamoto modifies the caller's array of degrees")
+        return
     if np.shape(z1) != arr.shape or np.shape(z2) != (1, len(ys)):
         acc.violate("array-shape", {"term": cls}, case0, arr.shape, [np.shape(z1), np.shape(z2)], "shape not preserved")
         return
